@@ -773,7 +773,7 @@ def channels(ctx):
     batch = Batch()
     rng = ctx.rng("validator_run")
     pristine = gen_pristine(ctx, rng)
-    budget = 95 if not ctx.thorough else 900
+    budget = 95 if not ctx.thorough else 780
     t0 = time.time()
     done = run_sessions(app, pristine, chs, batch, limit_s=budget * .35)
     corrupted = []
